@@ -47,7 +47,7 @@ def merge(*runs):
 
 for _p in ('C01', 'C02', 'C03', 'C04', 'C06', 'C15', 'C17', 'C18', 'C19', 'C20'):
     types_prop(_p)
-PROPS['C17'] = {'run': merge(suites.run_property_types, suites.run_negative_c17)}
+PROPS['C17'] = {'run': merge(suites.run_property_types, suites.run_negative_c17, suites.run_property_hist)}
 PROPS['C05'] = {'run': merge(suites.run_property_types, suites.run_property_hist)}
 for _p in ('C11', 'C12', 'C13'):
     PROPS[_p] = {'run': suites.run_property_hist}
